@@ -1,8 +1,8 @@
 SPECIFICATION BSpec
 CONSTANTS
-  System <- SysC2063
-  Alphabet <- AlphaC2063
-  MaxLen = 7
+  System <- SysC2063Q
+  Alphabet <- AlphaC2063Q
+  MaxLen = 8
   Lint = TRUE
   SortVariant = "code"
   StaleOK = TRUE
